@@ -181,10 +181,15 @@ def check(run):
         agf = repo.func(urel, 'aggregate')
         if pkg == 'pyclifford':
             aug = [s for s, c in walk(agf.node) if isinstance(s, ast.AugAssign) and c.loops]
-            ok = len(aug) == 1 and isinstance(aug[0].op, ast.Add) and norm(aug[0].target).replace(' ', '') == 'data_out[inds[i]]' and norm(aug[0].value).replace(' ', '') == 'data_in[i]'
+            lv = aug[0] and [c for s, c in walk(agf.node) if s is aug[0]][0].loops[-1].target if aug else None
+            i_ = lv.id if isinstance(lv, ast.Name) else 'i'
+            din, inds_ = agf.posparams[0], agf.posparams[1]
+            tgt = norm(aug[0].target).replace(' ', '') if aug else ''
+            ok = len(aug) == 1 and isinstance(aug[0].op, ast.Add) and tgt.endswith('[%s[%s]]' % (inds_, i_)) and norm(aug[0].value).replace(' ', '') == '%s[%s]' % (din, i_)
             run.check(ok, 'R6.reduce', agf, 'data_out[inds[i]] += data_in[i]', 'aggregation sums each entry into its class')
             lp = [s for s, _ in walk(agf.node) if isinstance(s, ast.For)]
-            run.check(len(lp) == 1 and norm(lp[0].iter).replace(' ', '') == 'range(data_in.shape[0])', 'R6.reduce', agf, 'loop', 'every term is aggregated')
+            from ..names import is_full_index_range
+            run.check(len(lp) == 1 and is_full_index_range(lp[0].iter, agf.posparams[0]), 'R6.reduce', agf, 'loop', 'every term is aggregated')
         else:
             txt = norm(agf.node.body[-1]).replace(' ', '')
             run.check('index_add_(-1,inds,data_in)' in txt and 'torch.zeros(l' in txt, 'R6.reduce', agf, 'index_add_', 'aggregation sums each entry into its class')
